@@ -113,6 +113,17 @@ func runC06(c *Ctx, idx int) {
 				sg.Traits[i].Params = sg.Traits[i].Params[:k]
 			}
 		}
+		if r.Intn(2) == 0 {
+			// a hidden neuron that no gene refers to (NewPopulationRandom builds such genomes, a hand-written file may list one)
+			top := 0
+			for _, nd := range sg.Nodes {
+				if nd.Id > top {
+					top = nd.Id
+				}
+			}
+			sg.Nodes = append(sg.Nodes, SnapNode{Id: top + 1 + r.Intn(3), Neuron: byte(network.HiddenNeuron), Act: sg.Nodes[len(sg.Nodes)-1].Act})
+			c.Count("families.with_a_hidden_neuron_no_gene_refers_to", 1)
+		}
 		f = newFamilyFrom(buildFromSnap(sg), "built: traits with 0 / 1 / 6 parameters", o)
 		c06Spawn(c, f, r)
 		modular = true
